@@ -61,14 +61,17 @@ def build(label, D, params, bij, v0, entry):
     else:
         target, args, kwargs = None, (), {}
     before = np.asarray(x.value).copy()
+    build.after_transform = "n/a"
     if entry == "var":
         x.transform(target, *args, **kwargs)
+        build.after_transform = None if x.value is None else np.asarray(x.value).copy()
         gb.add(x)
     elif entry == "builder":
         with warnings.catch_warnings():
             warnings.simplefilter("ignore")
             gb.add(x)
             gb.transform(x, target, *args, **kwargs)
+        build.after_transform = None if x.value is None else np.asarray(x.value).copy()
     elif entry in ("auto", "auto-default"):
         x.auto_transform = True
         gb.add(x)
@@ -90,6 +93,12 @@ def scenario(chk, label, D, params, bij, v0, entry):
         name = f"{label.split('/')[0].strip()} / default bijector via auto_transform"
     # structural facts (concrete)
     problems = []
+    at = getattr(build, "after_transform", "n/a")
+    if not isinstance(at, str):
+        if at is None:
+            problems.append("right after the transformation (before any model is built) the original variable has no value")
+        elif at.shape != before.shape or not np.allclose(at, before, rtol=1e-5, atol=1e-6):
+            problems.append(f"right after the transformation the original variable's value is {at.tolist()} instead of {before.tolist()}")
     vars_ = model.vars
     if "x_transformed" not in vars_:
         problems.append("no variable x_transformed in the built model")
